@@ -28,7 +28,7 @@ for p in props:
                                                '(the technique applies; see DESIGN.md §7 %s)' % pid))
 m = dict(
     version=1,
-    setup_cmd='./build.sh all',
+    setup_cmd='./build.sh all ; ./check warm',
     hooks=dict(guard='verif (Go build tag)', enable='go build -tags verif (harness/go.mod replaces the module with /repo)',
                baseline_off_cmd='cd /repo && GOFLAGS=-mod=mod GOPROXY=off GOSUMDB=off go test -json -vet=off -count=1 -timeout 25m ./...',
                source_commits=[l.split()[0] for l in os.popen("git -C /repo log --format='%h %s' | grep -i 'verif hooks'").read().splitlines()],
